@@ -126,7 +126,7 @@ int connect(int fd, const struct sockaddr *addr, socklen_t len) {
         g_addrlen = len;
         size_t n = len > 2 ? len - 2 : 0; if (n > sizeof g_sunpath - 1) n = sizeof g_sunpath - 1;
         memcpy(g_sunpath, ((const struct sockaddr_un *)addr)->sun_path, n); g_sunpath[n] = 0;
-        return g_net_capture == 2 ? 0 : -1;
+        return g_net_capture >= 2 ? 0 : -1;
     }
     return real(fd, addr, len);
 }
@@ -134,6 +134,7 @@ ssize_t send(int fd, const void *buf, size_t n, int flags) {
     static ssize_t (*real)(int, const void *, size_t, int);
     if (!real) real = (ssize_t (*)(int, const void *, size_t, int)) dlsym(RTLD_NEXT, "send");
     if (g_net_capture == 2) { free(g_sent); g_sent = malloc(n + 1); memcpy(g_sent, buf, n); g_sent_n = n; return (ssize_t) n; }
+    if (g_net_capture == 3) { errno = EAGAIN; return -1; }      /* a receiver whose queue is full and never drained */
     return real(fd, buf, n, flags);
 }
 static int g_open_capture = 0; static char *g_open_path = NULL; static char g_open_tmp[600];
@@ -383,6 +384,15 @@ static void handle(int nf, char **f, FILE *out) {
         snoopy_cleanup();
         size_t n = strnlen(buf, sz);
         if (n >= sz) fprintf(out, "unterminated"); else fprintf(out, "ok\t%zu\t%d", n, r < 0 ? -1 : 0);
+    } else if (!strcmp(f[0], "sockeagain") && nf == 3) {
+        /* sockeagain output-name msg : the receiver never takes the datagram (send -> EAGAIN every time): the output must give up, not wait */
+        vbytes nm = parse_bytes(f[1]), m = parse_bytes(f[2]);
+        snoopy_init();
+        g_net_capture = 3;
+        int r = !strcmp(nm.p, "devlog") ? snoopy_output_devlogoutput(exact(m), "") : snoopy_output_socketoutput(exact(m), "/tmp/nonexistent.sock");
+        g_net_capture = 0;
+        snoopy_cleanup();
+        fprintf(out, "ok\t%d", r < 0 ? 1 : 0);
     } else if (!strcmp(f[0], "filter") && nf == 3) {
         vbytes nm = parse_bytes(f[1]), a = parse_bytes(f[2]);
         snoopy_init();
